@@ -31,7 +31,7 @@ def run(R):
     srcs += [c["src"] for c in c03.gen(R, 3, False, name="recbfs") if c["cls"] == "accept"]
     srcs += ["a \\", "\"\"", "''", "cat <<E\nE\n", "cat <<E\n\nE\n", "x=~/a:~b y", "${#*}", "echo ${x#} ${#} $", ">x", "~", "~nosuchuser/x", "a=\\",
              "(( ))", "echo $(( ))", "echo \"$(())\"", "echo ${9223372036854775808}", "echo ${18446744073709551615}", "echo $99999999999999999999", "echo ${00}", "echo ${010}",
-             "echo ${99999999999999999999:=w}", "echo ${#99999999999999999999}", "echo ${99999999999999999999}", "(( a -\n   -b ))", "echo ${a-b$c}", "echo ${a:=/tmp/$U}", "echo ${a#\"$b\"c}"]
+             "echo ${99999999999999999999:=w}", "echo ${#99999999999999999999}", "echo ${99999999999999999999}", "(( a -\n   -b ))", "echo ${#*} ${#@} $* $@ \"$*\" \"$@\" ${*:-w} ${@:+w} ${#} ${*%x} ${@#x}", "echo ${a-b$c}", "echo ${a:=/tmp/$U}", "echo ${a#\"$b\"c}"]
     srcs += [c["src"] for c in shellgen.deep(12)]       # nesting depth 1..12 of every compound command
     srcs = list(dict.fromkeys(srcs))
     strs = chargen.strings(R, ARITH_ALPHA, 3, name="arith") + chargen.strings(R, PAT_ALPHA, 3, name="pats")
